@@ -325,3 +325,124 @@ def flat_defs(fn, op, terms=None, depth=24, _seen=None, chain=()):
             else:
                 out.append((("call", c.name, tuple(terms.operand(a, depth) for a in c.args), c.bb), chain + (c.bb,)))
     return out
+
+
+# ---------------------------------------------------------------- MIR value roots (identity of values through copies / borrows)
+def mir_root(fn, op, limit=24):
+    """follow single-definition copy / move / borrow / reborrow / tuple.0-of-checked-arithmetic chains of an operand (or place)
+    back to the local that holds the value: returns ("local", l) | ("const", k) | ("place", json) ."""
+    import json as _json
+    if isinstance(op, dict) and "k" in op:
+        return ("const", op["k"])
+    pl = op.get("c", op.get("m")) if isinstance(op, dict) and ("c" in op or "m" in op) else op
+    for _ in range(limit):
+        if isinstance(pl, dict):
+            if all(p == "*" for p in pl.get("p", [])):
+                pl = pl["l"]
+                continue
+            return ("place", _json.dumps(pl, sort_keys=True))
+        if not isinstance(pl, int):
+            return ("place", str(pl))
+        if 1 <= pl <= fn.argc():
+            return ("local", pl)
+        ds = fn.defs().get(pl, [])
+        if len(ds) != 1 or ds[0][0] != "stmt":
+            return ("local", pl)
+        rv = ds[0][3]["rv"]
+        if "use" in rv and isinstance(rv["use"], dict):
+            if "k" in rv["use"]:
+                return ("const", rv["use"]["k"])
+            pl = rv["use"].get("c", rv["use"].get("m"))
+            continue
+        if "ref" in rv:
+            pl = rv["ref"]
+            continue
+        return ("local", pl)
+    return ("local", pl)
+
+
+def mir_def(fn, op):
+    """the single definition of the root of an operand: ("stmt", rv) | ("call", CallSite) | None."""
+    r = mir_root(fn, op)
+    if r[0] != "local":
+        return None
+    ds = fn.defs().get(r[1], [])
+    if len(ds) != 1:
+        return None
+    d = ds[0]
+    return ("stmt", d[3]["rv"]) if d[0] == "stmt" else ("call", d[2])
+
+
+def mir_difference(fn, op):
+    """if the operand is x - y (checked, plain, wrapping or saturating): the two operands."""
+    d = mir_def(fn, op)
+    if d is None:
+        # tuple.0 of a checked operation
+        r = mir_root(fn, op)
+        if r[0] == "place":
+            import json as _json
+            try:
+                pl = _json.loads(r[1])
+            except Exception:
+                return None
+            if pl.get("p") == ["tuple.0"]:
+                d = mir_def(fn, {"c": pl["l"]})
+        if d is None:
+            return None
+    if d[0] == "stmt" and d[1].get("bin") in ("Sub", "SubWithOverflow", "SubUnchecked"):
+        return d[1]["a"], d[1]["b"]
+    if d[0] == "call" and re.search(r"::(wrapping_sub|saturating_sub)$", F.strip_generics(d[1].name)) and len(d[1].args) == 2:
+        return d[1].args[0], d[1].args[1]
+    return None
+
+
+def mir_sum(fn, op):
+    d = mir_def(fn, op)
+    if d is None:
+        r = mir_root(fn, op)
+        if r[0] == "place":
+            import json as _json
+            try:
+                pl = _json.loads(r[1])
+            except Exception:
+                return None
+            if pl.get("p") == ["tuple.0"]:
+                d = mir_def(fn, {"c": pl["l"]})
+        if d is None:
+            return None
+    if d[0] == "stmt" and d[1].get("bin") in ("Add", "AddWithOverflow", "AddUnchecked"):
+        return d[1]["a"], d[1]["b"]
+    if d[0] == "call" and re.search(r"(::(wrapping_add|saturating_add)|Add(<.*>)?::add)$", d[1].name) and len(d[1].args) == 2:
+        return d[1].args[0], d[1].args[1]
+    return None
+
+
+def mir_value_key(fn, op, depth=6):
+    """value-numbering key of an integer operand: equal keys => equal values at any point where the leaf locals hold the same
+    values (copies followed; arithmetic on single-definition temporaries expanded; calls and multi-definition locals are leaves)."""
+    import json as _json
+    r = mir_root(fn, op)
+    if r[0] == "const":
+        return ("k", r[1])
+    if depth <= 0:
+        return r
+    if r[0] == "place":
+        try:
+            pl = _json.loads(r[1])
+        except Exception:
+            return r
+        if pl.get("p") == ["tuple.0"] and isinstance(pl.get("l"), int):
+            ds = fn.defs().get(pl["l"], [])
+            if len(ds) == 1 and ds[0][0] == "stmt" and "bin" in ds[0][3]["rv"]:
+                rv = ds[0][3]["rv"]
+                return (rv["bin"].replace("WithOverflow", ""), mir_value_key(fn, rv["a"], depth - 1), mir_value_key(fn, rv["b"], depth - 1))
+        return r
+    if r[0] == "local":
+        ds = fn.defs().get(r[1], [])
+        if len(ds) == 1 and ds[0][0] == "stmt":
+            rv = ds[0][3]["rv"]
+            if "bin" in rv and not rv["bin"].endswith("WithOverflow"):
+                return (rv["bin"], mir_value_key(fn, rv["a"], depth - 1), mir_value_key(fn, rv["b"], depth - 1))
+            if "cast" in rv:
+                return ("cast", rv.get("ty"), mir_value_key(fn, rv["cast"], depth - 1))
+    return r
